@@ -55,6 +55,10 @@ def corner_costs(plain=True):
         {"spe": 0, "dup": 2, "hgt": 3, "floss": 1, "sloss": 1},
         {"spe": 1, "dup": 2, "hgt": 2, "floss": 2, "sloss": 2},
         {"spe": 0, "dup": 3, "hgt": 0, "floss": 2, "sloss": 1},
+        # loss-heavy: a loss is dearer than a transfer (deep placements tie with / lose against transfers)
+        {"spe": 0, "dup": 1, "hgt": 1, "floss": 2, "sloss": 1},
+        {"spe": 0, "dup": 3, "hgt": 1, "floss": 2, "sloss": 1},
+        {"spe": 0, "dup": 2, "hgt": 2, "floss": 3, "sloss": 1},
     ]
     return [c for c in cs if coherent(_num(c), plain)]
 
@@ -277,5 +281,21 @@ def deep_super_case(rng, ordered=False, min_obj=5, max_obj=7, max_fam=5, max_sp=
         if not syn[g]:
             syn[g].append(rng.choice(fams))
         syn[g] = sorted(set(syn[g]), key=(hidden.index if ordered else fams.index))
-    c = dict(DEFAULT) if rng.random() < 0.6 else tie_cost(rng)
+    c = dict(DEFAULT) if rng.random() < 0.6 else tame(tie_cost(rng), no)
     return {"kind": "super", "G": G, "S": S, "leafmap": lm, "syn": syn, "costs": c}
+
+
+def tame(c, nleaves, limit=5):
+    """Cost vectors that make (almost) everything tie let the ALL sets explode combinatorially on larger inputs
+    (millions of co-optimal solutions: memory and time, not a property of interest).  For inputs with more than
+    ``limit`` object leaves make losses, duplications and transfers cost at least 1."""
+    if nleaves <= limit:
+        return c
+    c = dict(c)
+    if c["floss"] == 0:
+        c["floss"] = 1
+    if c["dup"] == 0:
+        c["dup"] = 1
+    if c["hgt"] == 0:
+        c["hgt"] = 1
+    return c
